@@ -21,6 +21,7 @@ def answer (line : String) : String :=
     | "aoown" => aoownLine toks
     | "heap" => heapLine toks
     | "track" => trackLine toks
+    | "jsonc" => jsoncLine (rest.headD "") toks
     | "ao" => aoLine toks
     | "ps" => psLine toks
     | "qspy" => qspyLine toks
